@@ -53,6 +53,14 @@ func c03Scripts(g *Gen, id string, kind byte) []Action {
 		if rng.Chance(1, 2) {
 			return []Action{{Op: "obs"}, {Op: "adderr", S: "E-" + id}, {Op: "next"}, {Op: "panicif"}}
 		}
+	case 6:
+		if rng.Chance(1, 3) {
+			return []Action{{Op: "obs"}, {Op: "introspect"}, {Op: "next"}, {Op: "obs"}}
+		}
+	case 7:
+		if rng.Chance(1, 3) {
+			return []Action{{Op: "obs"}, {Op: "cancelreq"}, {Op: "next"}, {Op: "obs"}}
+		}
 	}
 	return nil
 }
